@@ -3,7 +3,8 @@
 // usage: gen_monitor <specfile> <seed> <n_iid> <n_grid> <hostile 0|1> <shard> <nshards>
 //   spec lines:
 //     B <name> [thr ...]
-//     D <name> <level> <mode> <e1> <e2> <window 0|1> <Q> <budget: 0 le | 1 eq> <chain 0|1> <tolerance MeV>
+//     D <name> <level> <mode> <e1> <e2> <window 0|1> <Q> <budget: 0 le | 1 eq> <chain 0|1> <tolerance MeV> [work bound]
+//     (a value >= 1 on a B line is the work bound)
 // Output: one JSON line per configuration.
 #include <cstdlib>
 #include <fstream>
@@ -30,6 +31,7 @@ struct Spec
   int budget_eq = 0;
   bool chain = false;
   double tol = 0.003;
+  size_t work_bound = 0; // soft bound on deviates per shot (0: only the tape's hard cap)
   std::string label() const
   {
     if (kind == 'B') return "bkg/" + name;
@@ -101,6 +103,8 @@ static void run(const Spec & sp, uint64_t seed, long n_iid, int n_grid, bool hos
         x.steer = steer;
       }
     };
+    if (ok && sp.work_bound && d > sp.work_bound)
+      rec(st.wf, lab + "|work-bound", fmt("one shot consumed %zu deviates (bound for this kind of configuration: %zu)", d, sp.work_bound));
     if (!ok) {
       st.cap_hits++;
       rec(st.wf, lab + "|" + (exc == "cap" ? "unbounded-draws" : "exception"), exc == "cap" ? fmt("one shot consumed more than %zu deviates", tape.cap) : exc);
@@ -226,11 +230,15 @@ int main(int argc, char ** argv)
     sp.kind = kind[0];
     if (sp.kind == 'B') {
       double v;
-      while (ls >> v)
+      while (ls >> v) {
         if (v > 0 && v < 1) sp.thr.push_back(v);
+        if (v >= 1) sp.work_bound = (size_t)v;
+      }
     } else {
       int w = 0, ch = 0;
       ls >> sp.level >> sp.mode >> sp.e1 >> sp.e2 >> w >> sp.Q >> sp.budget_eq >> ch >> sp.tol;
+      double wb = 0;
+      if (ls >> wb) sp.work_bound = (size_t)wb;
       sp.window = w != 0;
       sp.chain = ch != 0;
     }
